@@ -236,9 +236,140 @@ def r4_cursor(r, facts):
     r.floor(2)
 
 
+def r5_watch_paths(r, facts):
+    """the wd -> path table that gives events their full path"""
+    f = facts.fn('inotify::watch')
+    eb = ExprBuilder(f, multi='phi')
+    adds = [(l, t) for l, t in f.calls() if (t.get('callee') or '') == 'libc::inotify_add_watch']
+    ins = [(l, t) for l, t in f.calls() if (t.get('callee') or '').endswith('::insert') and 'HashMap' in (t.get('callee') or '')]
+    if r.require(len(adds) == 1 and len(ins) == 1, 'watch/sites', 'expected one inotify_add_watch and one watching.insert in inotify::watch (found %d/%d)' % (len(adds), len(ins)), f.where()):
+        al, at = adds[0]
+        il, it = ins[0]
+        key = eb.operand(it['args'][1])
+        val = eb.operand(it['args'][2])
+        pth = eb.operand(at['args'][1])
+        r.inst('watching.insert(%s, %s)' % (str(key)[:60], str(val)[:60]), f.where(il))
+        r.require(any(x[0] == 'call' and x[1] == 'libc::inotify_add_watch' for x in subexprs(key)), 'watch/key', 'the key stored in the watch table is not the watch descriptor returned by inotify_add_watch: %s' % (str(key)[:120],), f.where(il))
+        # the stored path is the one whose pointer was given to the kernel
+        r.require(any(repr(x) == repr(val) for x in subexprs(pth)), 'watch/path', 'the path stored for the watch descriptor is not the path passed to inotify_add_watch (events would be attributed to another path)', f.where(il))
+        r.require(f.dominates(al, il), 'watch/order', 'the watch table is updated before the kernel accepted the watch', f.where(il))
+        # only on the success edge: the insert is not reachable when the syscall failed
+    g = [x for x in facts.func_list if x.path.endswith('::path_for_sys') and x.kind != 'closure']
+    if r.require(len(g) == 1, 'path_for/fn', 'Events::path_for_sys not found', f.where()):
+        g = g[0]
+        eg = ExprBuilder(g, multi='phi')
+        gets = [(l, t) for l, t in g.calls() if (t.get('callee') or '').endswith('::get') and 'HashMap' in (t.get('callee') or '')]
+        joins = [(l, t) for l, t in g.calls() if (t.get('callee') or '') == 'std::path::Path::join']
+        if r.require(len(gets) == 1 and len(joins) == 1, 'path_for/sites', 'expected one watching.get and one Path::join in path_for_sys (found %d/%d)' % (len(gets), len(joins)), g.where()):
+            k = eg.operand(gets[0][1]['args'][1])
+            r.inst('watching.get(%s)' % (k,), g.where(gets[0][0]))
+            ap = access_path(k[1] if k[0] == 'ref' else k)
+            r.require(ap is not None and ap[1].endswith('event.wd') and ap[0][0] == 'arg' and ap[0][1] == 2, 'path_for/key', 'the watch table is not indexed with the wd of the event argument: %s' % (k,), g.where(gets[0][0]))
+            base = eg.operand(joins[0][1]['args'][0])
+            name = eg.operand(joins[0][1]['args'][1])
+            r.inst('join(%s, %s)' % (str(base)[:70], str(name)[:50]), g.where(joins[0][0]))
+            r.require(any(x[0] == 'call' and x[1].endswith('::get') for x in subexprs(base)), 'path_for/base', 'the full path does not start with the watched entry looked up for this event', g.where(joins[0][0]))
+            r.require(any(x[0] == 'call' and x[1].endswith('Event::file_path') and x[2] and x[2][0][0] == 'arg' and x[2][0][1] == 2 for x in subexprs(name)), 'path_for/name', 'the joined component is not this event\'s file name', g.where(joins[0][0]))
+    r.floor(2)
+
+
+INOTIFY_H = '/usr/include/linux/inotify.h'
+# accessor of notify::Event -> inotify(7) bit it reports
+EVENT_BITS = {
+    'is_dir': 'IN_ISDIR', 'accessed': 'IN_ACCESS', 'modified': 'IN_MODIFY', 'metadata_changed': 'IN_ATTRIB',
+    'closed_write': 'IN_CLOSE_WRITE', 'closed_no_write': 'IN_CLOSE_NOWRITE', 'closed': 'IN_CLOSE', 'opened': 'IN_OPEN',
+    'deleted': 'IN_DELETE_SELF', 'moved': 'IN_MOVE_SELF', 'unmounted': 'IN_UNMOUNT', 'file_moved_from': 'IN_MOVED_FROM',
+    'file_moved_into': 'IN_MOVED_TO', 'file_moved': 'IN_MOVE', 'file_created': 'IN_CREATE', 'file_deleted': 'IN_DELETE',
+}
+# constant of notify::Interest -> inotify(7) mask it subscribes to
+INTEREST_BITS = {
+    'ALL': 'IN_ALL_EVENTS', 'ACCESS': 'IN_ACCESS', 'MODIFY': 'IN_MODIFY', 'METADATA': 'IN_ATTRIB', 'CLOSE_WRITE': 'IN_CLOSE_WRITE',
+    'CLOSE_NOWRITE': 'IN_CLOSE_NOWRITE', 'CLOSE': 'IN_CLOSE', 'OPEN': 'IN_OPEN', 'MOVE_FROM': 'IN_MOVED_FROM', 'MOVE_INTO': 'IN_MOVED_TO',
+    'MOVE': 'IN_MOVE', 'CREATE': 'IN_CREATE', 'DELETE': 'IN_DELETE', 'DELETE_SELF': 'IN_DELETE_SELF', 'MOVE_SELF': 'IN_MOVE_SELF',
+}
+
+
+def inotify_header():
+    """IN_* values from <linux/inotify.h>, including the or-combinations"""
+    txt = open(INOTIFY_H).read().replace('\\\n', ' ')
+    vals = {}
+    for m in re.finditer(r'^#define\s+(IN_\w+)\s+(0x[0-9a-fA-F]+)\b', txt, flags=re.M):
+        vals[m.group(1)] = int(m.group(2), 16)
+    for _ in range(3):
+        for m in re.finditer(r'^#define\s+(IN_\w+)\s+\(([^)]*)\)', txt, flags=re.M):
+            parts = [x.strip() for x in m.group(2).split('|')]
+            if all(x in vals for x in parts):
+                v = 0
+                for x in parts:
+                    v |= vals[x]
+                vals[m.group(1)] = v
+    return vals
+
+
+def mask_test_const(facts, f, depth=0):
+    """the constant c of a body `self.mask() & c != 0`, following one forwarding call into the sys Event"""
+    eb = ExprBuilder(f, multi='phi')
+    for loc, s in f.assigns():
+        if s['lhs']['l'] == 0 and not s['lhs']['p']:
+            e = eb.rvalue(s['rv'])
+            if e[0] == 'bin' and e[1] == 'Ne' and e[2][0] == 'bin' and e[2][1] == 'BitAnd':
+                cs = [x for x in (e[2][2], e[2][3]) if x[0] == 'const' and x[1] is not None]
+                ms = [x for x in (e[2][2], e[2][3]) if x[0] == 'call' and x[1].endswith('::mask')]
+                if cs and ms:
+                    return cs[0][1]
+    if depth == 0:
+        for loc, t in f.calls():
+            if t['dest']['l'] == 0 and not t['dest']['p']:
+                g = facts.fn_opt(t.get('callee') or '')
+                if g is not None:
+                    return mask_test_const(facts, g, 1)
+    return None
+
+
+def r6_mask_table(r, facts):
+    hv = inotify_header()
+    r.require(len(hv) >= 20, 'inotify.h', 'could not read the IN_* constants from %s' % INOTIFY_H)
+    seen = 0
+    for f in facts.func_list:
+        m = re.match(r'^fs::notify::Event::(\w+)$', f.path)
+        if not m or f.j.get('vis') not in (None, 'pub', 'public') and False:
+            continue
+        name = m.group(1)
+        if name in ('file_path', 'mask', 'events', 'fmt'):
+            continue
+        row = EVENT_BITS.get(name)
+        if not r.require(row is not None, 'event:%s' % name, 'accessor notify::Event::%s has no row in the event table (new accessor: add it)' % name, f.where()):
+            continue
+        got = mask_test_const(facts, f)
+        seen += 1
+        r.inst('Event::%s tests %s (%s = %#x)' % (name, got if got is None else hex(got), row, hv.get(row, -1)), f.where())
+        r.require(got is not None, 'event:%s' % name, 'Event::%s is not of the form mask() & CONST != 0 (unrecognised form)' % name, f.where())
+        if got is not None:
+            r.require(got == hv.get(row), 'event:%s' % name, 'Event::%s tests mask bit(s) %#x but inotify(7) %s is %#x: the accessor reports another kind of event' % (name, got, row, hv.get(row, -1)), f.where())
+    r.require(seen >= len(EVENT_BITS), 'event-table', 'only %d of %d event accessors found' % (seen, len(EVENT_BITS)))
+    n = 0
+    for path, c in sorted(facts.consts.items()):
+        m = re.match(r'^fs::notify::Interest::([A-Z_]+)$', path)
+        if not m or m.group(1) == 'ALL_VALUES':
+            continue
+        row = INTEREST_BITS.get(m.group(1))
+        where = '%s:%s' % (c['span']['file'], c['span']['line']) if c.get('span') else ''
+        if not r.require(row is not None, 'interest:%s' % m.group(1), 'Interest::%s has no row in the interest table' % m.group(1), where):
+            continue
+        got = int(c['val']) if 'val' in c else None
+        n += 1
+        r.inst('Interest::%s = %s (%s = %#x)' % (m.group(1), got, row, hv.get(row, -1)), where)
+        r.require(got == hv.get(row), 'interest:%s' % m.group(1), 'Interest::%s subscribes to mask %s but inotify(7) %s is %#x' % (m.group(1), got, row, hv.get(row, -1)), where)
+    r.require(n >= len(INTEREST_BITS), 'interest-table', 'only %d of %d Interest constants found' % (n, len(INTEREST_BITS)))
+    # the watch request always asks the kernel not to follow links / to combine masks: part of "the events of the watched entry"
+    r.floor(31)
+
+
 def check(ctx):
     ctx.run('C17.R2', 'decoder bounds: header deref under buf.len() > processed; BUF_SIZE covers one maximal record', r2_bounds)
     ctx.run('C17.R3', 'IN_IGNORED forgets the watch; IN_IGNORED / IN_Q_OVERFLOW records are never yielded', r3_filtered)
+    ctx.run('C17.R5', 'wd -> path table: stored under the wd the kernel returned with the path given to it; path_for joins the path looked up by event.wd with the event\'s name', r5_watch_paths)
+    ctx.run('C17.R6', 'event accessors and Interest constants name the inotify(7) bits of <linux/inotify.h>', r6_mask_table)
     ctx.run('C17.R4', 'cursor advances once per record by header + name length before yield/skip; padding stripped', r4_cursor)
 
 
